@@ -47,9 +47,10 @@ def gen_case(seed):
         kname = 'K%d' % k
         ratio = ('div', ('ref', s + '0'), ('ref', t + '0')) if div else ('div', ('ref', t + '0'), ('ref', s + '0'))
         ops.append(['add', 0, kname, ('mul', ratio, ('num', rng.choice(['1', '1000', '0.01', '3'])))])
-        sym = [k] if rng.random() < 0.4 else []
+        # coefficients with no, one or two symbolic factors (a product of several symbols must survive as a whole)
+        sym = rng.choice([[], [], [k], [k], [0, 1]])
         rules.append({'from': rng.choice(units[s][:3]), 'to': rng.choice(units[t][:3]), 'div': div,
-                      'kq': rng.choice(['12', '1.1', '0.5', '2', '96']), 'ksym': sym, 'kunit': ('get', 0, kname)})
+                      'kq': rng.choice(['12', '1.1', '0.5', '2', '96', '1', '1']), 'ksym': sym, 'kunit': ('get', 0, kname)})
     queries = []
     for s, t in [('X', 'Y'), ('Y', 'X'), ('X', 'Z'), ('Y', 'Z'), ('Z', 'X'), ('X', 'X'), ('Y', 'Y')]:
         for a in units[s]:
